@@ -6,6 +6,11 @@ from hypothesis import strategies as st
 
 from . import model
 
+def chance(n):
+    """True with probability 1/n"""
+    return st.sampled_from([True] + [False] * (n - 1))
+
+
 # ------------------------------------------------------------------ code points / strings
 SPECIAL_CPS = [0x22, 0x5C, 0x2F, 0x08, 0x0C, 0x0A, 0x0D, 0x09, 0x7F, 0x20, 0x01, 0x1F,
                0x80, 0x7FF, 0x800, 0xFFFF, 0xFFFE, 0xD7FF, 0xE000, 0xFDD0, 0x10000, 0x10FFFF, 0x1F600,
@@ -199,3 +204,63 @@ def deep_chains(limit, leaves, offsets=(-1, 0)):
     return st.tuples(st.sampled_from(["[", "{", "[{", "{[", "[[{"]),
                      st.sampled_from([limit + o for o in offsets]),
                      leaves).map(lambda t: ["D", t[0], t[1], t[2]])
+
+
+def _assemble(leaves, keypool, seed, unique_keys, fold_unique):
+    import random
+    rnd = random.Random(seed)
+    nodes = list(leaves)
+
+    def wrap(group):
+        if rnd.random() < 0.5:
+            return ["A", group]
+        members = []
+        seen = set()
+        for ch in group:
+            k = rnd.choice(keypool)
+            kk = model.fold(k) if fold_unique else k
+            if unique_keys and kk in seen:
+                # derive a distinct key deterministically
+                i = 0
+                while kk in seen:
+                    i += 1
+                    k2 = k + b"%d" % i
+                    kk = model.fold(k2) if fold_unique else k2
+                k = k + b"%d" % i
+            seen.add(kk)
+            members.append([k, ch])
+        return ["O", members]
+
+    if rnd.random() < 0.15:
+        nodes.insert(rnd.randrange(len(nodes) + 1), ["A", []])
+    if rnd.random() < 0.15:
+        nodes.insert(rnd.randrange(len(nodes) + 1), ["O", []])
+    while len(nodes) > 1:
+        g = rnd.randint(1, min(5, len(nodes)))
+        p = rnd.randint(0, len(nodes) - g)
+        nodes[p:p + g] = [wrap(nodes[p:p + g])]
+    root = nodes[0]
+    if rnd.random() < 0.5 or root[0] not in "AO":
+        root = wrap([root])
+    return root
+
+
+def shaped_documents(leaves, keys, max_leaves=16, unique_keys=False, fold_unique=False, min_leaves=1):
+    """documents with a controlled size distribution: a list of leaves grouped into containers by a
+    PRNG seeded from a drawn integer (Hypothesis' recursive() is heavily biased toward tiny trees)"""
+    return st.tuples(st.lists(leaves, min_size=min_leaves, max_size=max_leaves),
+                     st.lists(keys, min_size=1, max_size=6),
+                     st.integers(0, 2 ** 32 - 1)).map(lambda t: _assemble(t[0], t[1], t[2], unique_keys, fold_unique))
+
+
+ESCAPE_BYTES = [0x22, 0x5C, 0x2F, 0x08, 0x0C, 0x0A, 0x0D, 0x09, 0x01, 0x1F, 0x7F]
+
+
+def escapey_strings(max_size=10):
+    """byte strings dense in characters that need escaping"""
+    return st.lists(st.one_of(st.sampled_from(ESCAPE_BYTES), st.integers(0x20, 0x7E)), min_size=1, max_size=max_size).map(bytes)
+
+
+def invalid_utf8_strings(max_size=10):
+    return st.lists(st.one_of(st.sampled_from([0x80, 0xBF, 0xC0, 0xC1, 0xF5, 0xFF, 0xED, 0xA0, 0xE0, 0x9F, 0xF4, 0x90]), st.integers(0x20, 0x7E)),
+                    min_size=1, max_size=max_size).map(bytes)
